@@ -503,3 +503,411 @@ def all_cases(rng, quick):
         r = rng.fork('gen_c14:' + f.__name__)
         for case in f(r, quick):
             yield (f.__name__,) + tuple(case)
+
+
+# ================================================================================================ second audit pass
+# Classes that new, well-meant behaviour (tolerance, robustness limits, speed-ups, new format features, Unicode-aware clean-ups)
+# hinges on: a multi-byte character across EVERY byte offset (also in lines that are refused), line ends / separators / the blank
+# line at absolute block boundaries, escape- and comment-looking text, histories (what the same process was asked just before),
+# names that fold or normalise into each other, tokens with ignorable / compatibility characters, fields of one message that are
+# equal to / prefixes of / case variants of each other, every small length and the lengths servers commonly limit.
+
+ALIGN_SIZES_QUICK = [300, 1100, 4200, 9000]
+ALIGN_SIZES_MORE = [17000, 70000]
+
+def aligned_multibyte(rng, quick):
+    """text made of 2-, 3- and 4-byte characters only, in every alignment: whatever fixed byte offset a cut, a window or a cap uses,
+    one of the alignments has a character across it.  In accepted AND in refused request lines (an error text or a log line is
+    where a cap lives), in names, values and targets."""
+    for L in (ALIGN_SIZES_QUICK if quick else ALIGN_SIZES_QUICK + ALIGN_SIZES_MORE):
+        for ch in MULTI:
+            w = len(ch.encode())
+            for k in range(w):
+                s = 'a' * k + ch * (L // w)
+                m, v = pick_mv(rng)
+                full = L <= 4200 or not quick
+                yield 'rt', (m, '/', v, [('Before', 'x'), ('X-V', s), ('After', ch)], b'b'), False
+                # refused lines: unknown method, unknown version, no version, no blank at all, the long text as the method
+                yield 'parse', ('GETX /' + s + ' ' + v + '\r\nHost: h\r\n\r\n').encode(), 'aligned-multibyte-refused'
+                yield 'parse', (m + ' /' + s + ' HTTP/1.2\r\nHost: h\r\n\r\n').encode(), 'aligned-multibyte-refused'
+                yield 'line', (m + ' /' + s).encode(), 'aligned-multibyte-refused'
+                yield 'line', (m + ' /' + s + ' ' + v).encode(), 'aligned-multibyte'
+                if not full: continue
+                yield 'rt', (m, '/' + s, v, [('Host', 'h')], b''), False
+                yield 'rt', (m, '/', v, [(s, 'v'), ('After', 'x')], b''), False
+                yield 'rt', (m, '/?' + s, v, [(s, s)], s.encode()[:L // 2]), False
+                yield 'parse', (s + ' / ' + v + '\r\n\r\n').encode(), 'aligned-multibyte-refused'
+                yield 'parse', s.encode(), 'aligned-multibyte-refused'
+                yield 'parse', (m + ' /' + s + '\r\n\r\n').encode(), 'aligned-multibyte-refused'
+                yield 'line', (s + ' /x ' + v).encode(), 'aligned-multibyte-refused'
+                yield 'line', (m + ' /x ' + v + s).encode(), 'aligned-multibyte-refused'
+                yield 'hdr', (s, s, rng.choice(['\r\n', '\n', '']))
+                yield 'hdr', ('N', s, '\r\n')
+    # the same for short texts: every start offset 0..40 of one multi-byte character in a refused and in an accepted line
+    for ch in MULTI:
+        for pre in range(0, 41 if quick else 301):
+            m, v = pick_mv(rng)
+            yield 'line', ('BAD /' + 'a' * pre + ch + ' ' + v).encode(), 'aligned-multibyte-refused'
+            yield 'line', (m + ' /' + 'a' * pre + ch + ' ' + v + ch).encode(), 'aligned-multibyte-refused'
+            yield 'line', (m + ' /' + 'a' * pre + ch + ' ' + v).encode(), 'aligned-multibyte'
+
+ABS_QUICK = [512, 1024, 2048, 4096, 8192, 10000, 16384]
+ABS_QUICK_FEW = [32768, 65536]
+ABS_MORE = [64, 128, 256, 8000, 12288, 20000, 131072, 1 << 20]
+
+def absolute_alignment(rng, quick):
+    """a line end, a name/value separator, the blank line, the end of the request line and the first body byte at an ABSOLUTE byte
+    offset of the message around every block size a chunked reader may use (the offset counts from the first byte of the message)"""
+    plan = [(B, d, True) for B in ABS_QUICK for d in (-2, -1, 0, 1, 2)] + [(B, d, False) for B in ABS_QUICK_FEW for d in (-1, 0, 1)]
+    if not quick:
+        plan = [(B, d, True) for B in sorted(ABS_QUICK + ABS_MORE[:6]) for d in range(-4, 5)] + [(B, d, False) for B in ABS_QUICK_FEW for d in range(-2, 3)] + \
+               [(B, d, False) for B in ABS_MORE[6:] for d in (-1, 0, 1)]
+    tails = [b'\r\nX: y\r\n\r\ntail', b'b', b'', b'\n\r\n\r\n', b'A: b\r\n\r\nGET / HTTP/1.1\r\n\r\n']
+    for B, d, full in plan:
+        off = B + d
+        m, v = pick_mv(rng)
+        rl = len((m + ' / ' + v + ' \r\n').encode())
+        salt = B + d
+        body = tails[(B + d) % len(tails)]
+        # CR of a header line at `off` (LF at off+1: the pair straddles the block end when d == -1)
+        n = off - rl - 3
+        if n >= 0:
+            yield 'rt', (m, '/', v, [('P', fill(n, salt)), ('After', 'x: y')], body), False
+        # CR of the blank line at `off`; the body begins at off+2 and looks like more head
+        n = off - rl - 5
+        if n >= 0:
+            yield 'rt', (m, '/', v, [('P', fill(n, salt))], tails[0]), False
+            yield 'rt', (m, '/', v, [('P', fill(n, salt))], b''), False
+        if not full: continue
+        # ': ' of the second header at `off`
+        n = off - rl - 6
+        if n >= 0:
+            yield 'rt', (m, '/', v, [('P', fill(n, salt)), ('Q', 'v: w'), ('After', '')], body), False
+        # ': ' after a long NAME at `off`
+        n = off - rl
+        if n >= 1:
+            yield 'rt', (m, '/', v, [(fill(n, salt), 'v'), ('After', 'x')], body), False
+        # CR of the request line at `off`
+        n = off - len((m + '  ' + v + ' ').encode())
+        if n >= 1:
+            yield 'rt', (m, '/' + fill(n - 1, salt), v, [('Host', 'h')], body), False
+            yield 'rt', (m, '/' + fill(n - 1, salt), v, [], body), False
+        # the last byte of the message at `off` (nothing after the blank line / one body byte)
+        n = off - rl - 5 - 2 + 1
+        if n >= 0:
+            yield 'rt', (m, '/', v, [('P', fill(n, salt))], b''), False
+        # a multi-byte character of the BODY and of a later header across `off` while the head ends well before / after it
+        yield 'rt', (m, '/', v, [('H', 'v')], fill_bytes(off - rl - 8 - 1, salt) + '\u20ac\U0001f600\u00e9'.encode() + b'\r\n\r\nz'), False
+
+ESC_TOKENS = ['\\r', '\\n', '\\r\\n', '\\t', '\\\\', '\\0', '\\x41', '\\x0d\\x0a', '\\u0041', '\\u000d', '\\"', "\\'", '\\ ', '\\:', '\\: ', '\\,', '\\', '\\\\r\\\\n',
+              '%0D%0A', '%0d%0a', '%20', '%3A%20', '%3a', '%25', '%2525', '%00', '%', '%%', '%zz', '%C3%A9', '%u0041',
+              '&amp;', '&#58;', '&#x3a;', '&colon;', '&#13;&#10;', '&lt;', '&', '=?utf-8?B?YQ==?=', '=?UTF-8?Q?a=3A_b?=', '=?', '?=',
+              '+', '$HOME', '${x}', '$(x)', '%(x)s', '{0}', '{{', '}}', '<!--', '-->', '<!-- c -->',
+              '#', '# c', ' # c', ';', '; c', ' ; c', '//', '// c', '/*', '*/', '/* c */', '--', '-- c', 'REM ', '!', '(c)', ' (c)', '(', ')',
+              "'", '"', '""', "''", '"a"', "'a'", '"a', 'a"', '"a: b"', '`', '^', '~', '$', '@', '&', '|', '[', ']', '[a]', '<a>', '=', '==', 'a=b', 'a="b"',
+              '\ufeff', '\u200b', '\u00ad', '\u200d', '\u2060', '\ufffd', '\ufffe', '\U000e0001', '\u00e9', 'e\u0301', '\u0301']
+
+def escapes_comments(rng, quick):
+    """text that LOOKS like an escape, a character reference, an encoded word, a variable, a comment or a quotation: none of it
+    means anything to this parser, all of it must come back as written (name, value, target, body)"""
+    for tok in ESC_TOKENS:
+        shapes = [tok, tok + 'a', 'a' + tok, 'a' + tok + 'b', tok + tok, 'a ' + tok + ' b', tok + ' a', 'a' + tok + tok + 'b' + tok]
+        for k, s in enumerate(shapes):
+            if quick and k >= 4 and rng.chance(1, 2): continue
+            m, v = pick_mv(rng)
+            yield 'rt', (m, '/', v, [('Before', 'x'), ('N', s), ('After', 'y')], b'b'), False
+            yield 'rt', (m, '/', v, [('N', s)], s.encode()), False
+            if ': ' not in s:
+                yield 'rt', (m, '/', v, [(s, 'v'), ('After', s)], b''), False
+                yield 'rt', (m, '/', v, [('Before', 'x'), (s, s), (s, '')], b'b'), k == 0
+            if not any(c in s for c in ' \t'):
+                yield 'rt', (m, '/' + s, v, [('Host', 'h')], b''), False
+                yield 'rt', (m, s, v, [], b''), False
+                yield 'parse', serialise(m, '/p' + s, v, [('N', s)], b'', eol=rng.choice(['\r\n', '\n']), sp=''), 'escapes'
+            yield 'hdr', ('N', s, rng.choice(['\r\n', '\n', '']))
+            if ': ' not in s: yield 'hdr', (s, s, rng.choice(['\r\n', '\n', '']))
+
+def _line_relatives(m, v, m2, v2):
+    """pairs (first, second) of request lines that a memo keyed by PART of the line (its folded form, its prefix, its length, its
+    trimmed form, its method, its target) confuses"""
+    a = m + ' /idx ' + v
+    rel = [(a, m.lower() + ' /idx ' + v), (a, m + ' /idx ' + v.lower()), (a, m + ' /IDX ' + v), (a, m.lower() + ' /Idx ' + v.lower()),
+           (a, m + ' /idy ' + v), (a, m + ' /idx ' + v2), (a, m2 + ' /idx ' + v), (a, a + ' x'), (a, a + 'x'), (a, a[:-1]), (a, m + ' /idx  ' + v),
+           (a, a), (a, ' ' + a), (a, a + ' '), (a, a + '\r\n'), (a, m + ' /idx/' + fill(40, len(m)) + ' ' + v), (a, m + ' /idx?q=1 ' + v), (a, m + ' /idx ' + 'HTTP/1.2'),
+           (a, m + 'X /idx ' + v), (a, m + ' ' + v), (m + ' /' + fill(64, 3) + 'A ' + v, m + ' /' + fill(64, 3) + 'B ' + v),
+           (m + ' /' + fill(64, 3) + 'A ' + v, m.lower() + ' /' + fill(64, 3) + 'a ' + v)]
+    return rel
+
+def histories(rng, quick):
+    """what the same process was asked JUST BEFORE: a long message then a short one, many headers then none, a refused message then
+    a good one, two messages that are equal under some key (case, prefix, length, trimmed form) but not equal, the same lookup over
+    two different header lists.  Every case is judged on its own; a residue of the earlier one shows in the later one."""
+    mini = [('GET', '/', 'HTTP/1.1', [], b''), ('get', '', 'http/1.0', [], b'\x00'), ('HEAD', '*', 'HTTP/0.9', [('a', '')], b''), ('POST', '/p', 'HTTP/2.0', [('', '')], b'b')]
+    bigs = [('POST', '/upload/' + fill(700, 1), 'HTTP/1.1', [('X-H%d' % k, fill(40 + k, k)) for k in range(60)] + [('Content-Length', '3000')], fill_bytes(3000, 5)),
+            ('PUT', '/' + 'é' * 400, 'HTTP/2.0', [('Ключ', '€' * 500), ('Host', 'h')], ('😀' * 300).encode()),
+            ('OPTIONS', '*', 'HTTP/1.0', [('Same', 'v%d' % k) for k in range(300)], b'\r\n\r\n' * 200),
+            ('PATCH', '/a?b=c#d', 'HTTP/1.1', [('A', 'b: c: d'), ('Content-Length', '5')], b'hello world, more than five')]
+    bad = [b'GETT / HTTP/1.1\r\nHost: h\r\nA: b\r\n\r\nbody', b'GET / HTTP/1.2\r\nHost: h\r\n\r\nbody', b'GET /\r\nHost: h\r\n\r\n', b'\xffGET / HTTP/1.1\r\nHost: h\r\n\r\n',
+           b'POST /p HTTP/1.1 x\r\nContent-Length: 4\r\n\r\nbody', b'', b'\r\n', b'GET / HTTP/1.1\xff\r\nA: b\r\n\r\n']
+    for big in bigs:
+        for small in mini:
+            yield 'rt', big, False
+            yield 'rt', small, True
+            # ... through the other entry points
+            yield 'parse', serialise(*big), 'history'
+            yield 'parse', serialise(*small), 'history'
+            yield 'rt', small, False
+            # refused in between: whatever the refused message left behind must not show
+            b = bad[rng.below(len(bad))]
+            yield 'rt', big, False
+            yield 'parse', b, 'history'
+            yield 'rt', small, False
+            yield 'parse', b, 'history'
+            yield 'parse', serialise(*small), 'history'
+            # head that ends in a line that is not UTF-8 (the head is cut short there), then a good one
+            yield 'parse', serialise(big[0], big[1], big[2], big[3][:3], b'')[:-2] + b'Bad: \xff\xfe\r\nLater: x\r\n\r\nbody', 'history'
+            yield 'rt', small, False
+    # growing and shrinking: the same request with 0..12 headers up and down, bodies of 0..12 bytes down and up
+    m, v = pick_mv(rng)
+    for n in list(range(0, 13)) + list(range(12, -1, -1)):
+        yield 'rt', (m, '/g', v, [('H%d' % k, 'v%d' % k) for k in range(n)], fill_bytes(12 - n, n)), False
+    for n in [40, 3, 39, 4, 0, 41, 1]:
+        yield 'rt', (m, '/' + fill(n, 2), v, [(fill(n, 3), fill(40 - min(n, 40), 4))], fill_bytes(n, 1)), False
+    # equal twice, then different in ONE place (same length everywhere)
+    base = ('POST', '/same', 'HTTP/1.1', [('Host', 'h'), ('X-Tok', 'aaaa'), ('Accept', '*/*')], b'body')
+    yield 'rt', base, True
+    yield 'rt', base, True
+    for var in [('POST', '/same', 'HTTP/1.1', [('Host', 'h'), ('X-Tok', 'aaab'), ('Accept', '*/*')], b'body'),
+                ('POST', '/same', 'HTTP/1.1', [('Host', 'h'), ('X-Tok', 'aaaa'), ('Accept', '*/*')], b'bodz'),
+                ('POST', '/same', 'HTTP/1.1', [('Host', 'h'), ('X-Tol', 'aaaa'), ('Accept', '*/*')], b'body'),
+                ('POST', '/samf', 'HTTP/1.1', [('Host', 'h'), ('X-Tok', 'aaaa'), ('Accept', '*/*')], b'body'),
+                ('POST', '/same', 'HTTP/1.0', [('Host', 'h'), ('X-Tok', 'aaaa'), ('Accept', '*/*')], b'body'),
+                ('post', '/same', 'HTTP/1.1', [('Host', 'h'), ('X-Tok', 'aaaa'), ('Accept', '*/*')], b'body'),
+                ('POST', '/same', 'HTTP/1.1', [('host', 'h'), ('X-Tok', 'aaaa'), ('Accept', '*/*')], b'body'),
+                ('POST', '/same', 'HTTP/1.1', [('Host', 'h'), ('Accept', '*/*'), ('X-Tok', 'aaaa')], b'body'),
+                ('POST', '/same', 'HTTP/1.1', [('Host', 'h'), ('X-Tok', 'aaaa')], b'body'),
+                ('POST', '/same', 'HTTP/1.1', [('Host', 'h'), ('X-Tok', 'aaaa'), ('Accept', '*/*')], b''),
+                ('POST', '/same', 'HTTP/1.1', [('Host', 'h'), ('X-Tok', 'aaaa'), ('Accept', '*/*')], b'body\x00')]:
+        yield 'rt', base, False
+        yield 'rt', var, True
+        yield 'parse', serialise(*base), 'history'
+        yield 'parse', serialise(*var), 'history'
+    # request lines: every method / version pair with its relatives, in both orders, through the line reader and as a message
+    pairs = [(m, v) for m in METHODS for v in VERSIONS]
+    for i, (m, v) in enumerate(pairs):
+        m2 = METHODS[(METHODS.index(m) + 1 + i % 7) % 9]
+        if m2 == m: m2 = METHODS[(METHODS.index(m) + 1) % 9]
+        v2 = VERSIONS[(VERSIONS.index(v) + 1 + i % 3) % 4]
+        if v2 == v: v2 = VERSIONS[(VERSIONS.index(v) + 1) % 4]
+        rel = _line_relatives(m, v, m2, v2)
+        for k, (a, b) in enumerate(rel):
+            if quick and (i + k) % 3 and k > 3: continue
+            for x, y in [(a, b), (b, a)]:
+                yield 'line', x.encode(), 'history-line'
+                yield 'line', y.encode(), 'history-line'
+                if (i + k) % 2:
+                    yield 'parse', (x + '\r\nHost: x\r\n\r\n').encode(), 'history-line'
+                    yield 'parse', (y + '\r\nHost: y\r\n\r\nb').encode(), 'history-line'
+    # two texts of the same length with the same first P and the same last P bytes that differ in ONE middle byte (a fingerprint of
+    # length + prefix / suffix / sampled bytes calls them equal), one right after the other: request line, header line, lookup, message
+    for P in ([8, 16, 32, 64, 128, 256, 1024, 4096] if quick else [4, 8, 16, 32, 48, 64, 100, 128, 256, 512, 1024, 2048, 4096, 8192]):
+        for j in range(2 if quick else 6):
+            m, v = pick_mv(rng)
+            ta, tb = ['/' + fill(P, 3) + c + fill(P, 5) for c in (('A', 'B') if j % 2 == 0 else ('x', 'X'))]
+            for x, y in [(ta, tb), (tb, ta)]:
+                yield 'line', (m + ' ' + x + ' ' + v).encode(), 'history-fingerprint'
+                yield 'line', (m + ' ' + y + ' ' + v).encode(), 'history-fingerprint'
+                yield 'parse', (m + ' ' + x + ' ' + v + '\r\nHost: h\r\n\r\n').encode(), 'history-fingerprint'
+                yield 'parse', (m + ' ' + y + ' ' + v + '\r\nHost: h\r\n\r\n').encode(), 'history-fingerprint'
+                yield 'rt', (m, x, v, [('X-Tok', x), (x[1:], 'v')], x.encode()), False
+                yield 'rt', (m, y, v, [('X-Tok', y), (y[1:], 'v')], y.encode()), False
+                yield 'rt', (m, '/', v, [('X-Tok', x)], b''), False
+                yield 'rt', (m, '/', v, [('X-Tok', y)], b''), False
+                yield 'hdr', ('X-Tok', x, '\r\n')
+                yield 'hdr', ('X-Tok', y, '\r\n')
+                yield 'hdr', (x, 'v', '\r\n')
+                yield 'hdr', (y, 'v', '\r\n')
+                yield 'lookup', ([('Pad', '0'), (x, '1'), (y, '2')], x)
+                yield 'lookup', ([('Pad', '0'), (x, '1'), (y, '2')], y)
+                yield 'lookup', ([('Pad', '0'), (x, '1')], y)
+    # header lines: relatives of a line
+    for n, x in [('Host', 'example.com'), ('Content-Length', '12'), ('X-A', 'b: c'), ('', ''), ('é', 'ü')]:
+        for n2, x2 in [(n.lower(), x), (n.upper(), x), (n, x.upper()), (n, x + 'x'), (n, x[:-1]), (n + 'x', x), (n[:-1], x), (n, ''), ('', x), (n, x + ': ' + x), (n + ':', x), (x, n), (n, x)]:
+            if ': ' in n2: continue
+            for (a, b), (c, d) in [((n, x), (n2, x2)), ((n2, x2), (n, x))]:
+                yield 'hdr', (a, b, '\r\n')
+                yield 'hdr', (c, d, '\r\n')
+    # lookups: the same wanted name over different lists (hit far down a long list, then a short list; miss then hit; other case)
+    long = [('H%d' % k, 'v%d' % k) for k in range(40)]
+    for q in ['Host', 'host', 'HOST', 'X-Id', 'H39', 'h0']:
+        lists = [long + [('Host', 'far')], [('Host', 'near')], [], [('Hos', 'x')], long[:20] + [('host', 'mid')] + long[20:], [('X-Id', '1'), ('Host', 'second')], [('HOST', 'upper')],
+                 long, [('x-id', 'low')], [('Host', 'a'), ('Host', 'b')], [('h0', 'lower'), ('H0', 'upper')], long[::-1]]
+        for a in lists:
+            for b in lists:
+                if quick and rng.chance(1, 2): continue
+                yield 'lookup', (a, q)
+                yield 'lookup', (b, q)
+        for a in lists[:6]:
+            for q2 in [q.lower(), q.upper(), q.swapcase(), q + 'x', q[:-1]]:
+                yield 'lookup', (a, q)
+                yield 'lookup', (a, q2)
+                yield 'lookup', (a, q)
+
+FOLD_PAIRS = [('\u0131', 'I'), ('\u0131', 'i'), ('\u0130', 'i'), ('\u0130', 'I'), ('\u0130', 'i\u0307'), ('\ufb01', 'FI'), ('\ufb01', 'fi'), ('\ufb00', 'FF'), ('\u0149', '\u02bcN'),
+              ('\u01f0', 'J\u030c'), ('\u00e9', 'e\u0301'), ('\u00c9', 'E\u0301'), ('\u00c9', 'e\u0301'), ('E\u0301', 'e\u0301'), ('\u212b', '\u00e5'), ('\u212b', '\u00c5'), ('\u2126', '\u03c9'),
+              ('\u2126', '\u03a9'), ('\u00b5', '\u03bc'), ('\u00b5', '\u039c'), ('\u03c2', '\u03c3'), ('\u03a3', '\u03c2'), ('\u0391\u03a3', '\u03b1\u03c3'), ('\u0391\u03a3', '\u03b1\u03c2'),
+              ('\u03b1\u03c2', '\u03b1\u03c3'), ('\u03a3', '\u03c3'), ('\u01c5', '\u01c4'), ('\u01c6', '\u01c4'), ('\u1fb3', '\u0391\u0399'), ('\u1fbc', '\u1fb3'), ('\u1e9e', '\u00df'), ('\u1e9e', 'ss'),
+              ('\u00df', 'ss'), ('\u1e9e', 'SS'), ('\u2167', '\u2177'), ('\u24b6', '\u24d0'), ('\uff21', '\uff41'), ('\uff21', 'A'), ('\uff41', 'a'), ('\U00010400', '\U00010428'), ('\ua640', '\ua641'),
+              ('\u10a0', '\u2d00'), ('\u01f1', '\u01f3'), ('\u01f2', '\u01f3'), ('\u1d43', 'a'), ('\u00aa', 'a'), ('\u00aa', 'A'), ('\u013f', '\u0140'), ('\u0178', '\u00ff'), ('\u023a', '\u2c65'),
+              ('\u023f', '\u2c7e'), ('\u0250', '\u2c6f'), ('\uab70', '\u13a0'), ('\u13f8', '\u13f0'), ('\u0500', '\u0501'), ('\u212a', '\uff2b'), ('\u212a', 'k'), ('\u0390', '\u1fd3'),
+              ('x\u00ad', 'x'), ('x\u200b', 'x'), ('x\u200d', 'X'), ('\ufeffHost', 'Host'), ('Host\u200b', 'host')]
+
+def unicode_names(rng, quick):
+    """names that differ only in the case of a non-ASCII letter (must be found) or that a Unicode-aware comparison - upper-casing,
+    full case folding, normalisation, dropping ignorable characters - would wrongly call equal (must not be found).  Judged on the
+    implementation alone with Python's str.lower as the reference."""
+    for a, b in FOLD_PAIRS:
+        for x, y in [(a, b), ('X-' + a, 'x-' + b), (a + '-Id', b + '-ID')]:
+            for hs, q in [([('n', '0'), (x, '1'), (y, '2')], y), ([('n', '0'), (y, '1'), (x, '2')], x), ([(x, '1')], y), ([(y, '1')], x), ([(x, '1'), (y, '2')], x), ([(x.upper(), '1'), (y.lower(), '2')], y)]:
+                yield 'lookupu', (hs, q)
+
+IGNORABLE = ['\u00ad', '\u200b', '\u200c', '\u200d', '\u2060', '\ufeff', '\u0301', '\u034f', '\u180e', '\ufe0f', '\U000e0001']
+
+def _compat_forms(tok):
+    full = ''.join(chr(ord(c) + 0xFEE0) if '!' <= c <= '~' else c for c in tok)
+    bold = ''.join(chr(0x1D400 + ord(c) - 65) if 'A' <= c <= 'Z' else chr(0x1D7CE + ord(c) - 48) if '0' <= c <= '9' else c for c in tok)
+    circ = ''.join(chr(0x24B6 + ord(c) - 65) if 'A' <= c <= 'Z' else c for c in tok)
+    out = [full, full.lower(), bold, circ, tok[0] + full[1:], full[0] + tok[1:], tok[:-1] + full[-1]]
+    out += [tok.replace('/', '\u2044'), tok.replace('/', '\u2215'), tok.replace('/', '\uff0f'), tok.replace('.', '\u2024'), tok.replace('.', '\uff0e'), tok.replace('.', '\u00b7'),
+            tok.replace('1', '\u00b9'), tok.replace('1', '\u0661'), tok.replace('1', '\uff11'), tok.replace('2', '\u00b2'), tok.replace('0', '\u0660'), tok.replace('0', '\u2070'), tok.replace('0', 'O'),
+            tok.replace('1', 'l'), tok.replace('1', 'I'), tok.replace('O', '0'), tok.replace('E', '\u0415'), tok.replace('T', '\u0422'), tok.replace('P', '\u0420'), tok.replace('H', '\u041d'),
+            tok.replace('A', '\u0391'), tok.replace('C', '\u0421'), tok.replace('S', '\u0405'), tok.replace('T', '\u1d1b'), tok.replace('S', '\u017f'), tok.replace('I', '\u0131'), tok.replace('I', '\u0130')]
+    return [o for o in out if o != tok]
+
+def normalised_tokens(rng, quick):
+    """every method and version with an ignorable character (soft hyphen, zero-width space / joiner, word joiner, BOM, a combining
+    mark, a variation selector) before, after and inside it, and in compatibility spellings (full width, mathematical bold, circled,
+    superscript / other-script digits, look-alike letters, other slashes and dots): all unknown tokens"""
+    for toks, is_method in [(METHODS, True), (VERSIONS, False)]:
+        for tok in toks:
+            forms = []
+            for ig in IGNORABLE:
+                poss = list(range(len(tok) + 1))
+                if quick: poss = [0, len(tok)] + [1 + rng.below(max(1, len(tok) - 1))]
+                forms += [tok[:p] + ig + tok[p:] for p in poss]
+                forms += [(tok[:p] + ig + tok[p:]).lower() for p in poss[:2]]
+            forms += _compat_forms(tok)
+            for f in forms:
+                others = (VERSIONS if is_method else METHODS)
+                for o in ([others[rng.below(len(others))], others[rng.below(len(others))].lower()] if quick else others):
+                    s = (f + ' /x ' + o) if is_method else (o + ' /x ' + f)
+                    yield 'line', s.encode(), 'normalised-token'
+                    if not quick or rng.chance(1, 4):
+                        yield 'parse', (s + rng.choice(['\r\n', '\n']) + 'Host: h\r\n\r\n').encode(), 'normalised-token'
+    # the ignorable character right before / after the line, around the blanks and inside the target (the target keeps it)
+    for ig in IGNORABLE:
+        for m, v in ([(rng.choice(METHODS), rng.choice(VERSIONS)) for _ in range(3)] if quick else [(m, v) for m in METHODS for v in VERSIONS]):
+            for s in [ig + m + ' / ' + v, m + ' / ' + v + ig, m + ig + ' / ' + v, m + ' ' + ig + '/ ' + v, m + ' /' + ig + ' ' + v, m + ' / ' + ig + v, m + ' ' + ig + ' ' + v,
+                      m + ' / ' + v + ig + '\r\n', ig, m + ' /a' + ig + 'b ' + v]:
+                yield 'line', s.encode(), 'normalised-token'
+                yield 'parse', (s + '\r\nHost: h\r\n\r\n').encode(), 'normalised-token'
+            yield 'rt', (m, '/a' + ig + 'b', v, [(ig, ig), ('a' + ig, ig + 'b'), (ig + 'Host', 'h' + ig)], ig.encode()), False
+
+def field_relations(rng, quick):
+    """two parts of ONE message that are equal, prefixes of each other, case variants of each other, or that state something about
+    each other (a length, a host)"""
+    for m in METHODS:
+        for v in VERSIONS:
+            line = m + ' / ' + v
+            yield 'rt', (m, v, v, [(m, v)], line.encode()), False                                # the target IS the version
+            yield 'rt', (m, m, v, [(v, m), (m, '/ ' + v)], (line + '\r\n\r\n').encode()), False   # the target IS the method; a header line that reads like a request line
+            if quick and rng.chance(1, 2): continue
+            yield 'rt', (m, '/' + v, v.lower(), [('X', line), (line, ''), ('', line), (line, line)], b''), False
+            yield 'rt', (m.lower(), '/' + m, v, [('Method', m), (m.lower(), m.upper()), ('Version', v), (v, v.lower())], line.encode()), False
+            yield 'line', (m + ' ' + v + ' ' + v).encode(), 'field-relations'
+            yield 'line', (m + ' ' + m + ' ' + v).encode(), 'field-relations'
+            yield 'line', (m + ' ' + v.lower() + ' ' + v).encode(), 'field-relations'
+            yield 'line', (m + ' ' + v + ' ' + v + ' ' + v).encode(), 'field-relations'
+            yield 'line', (m + ' ' + v + '/ ' + v).encode(), 'field-relations'
+            yield 'line', (m + ' /' + v + ' ' + v).encode(), 'field-relations'
+            yield 'line', (m + ' ' + v[:-1] + ' ' + v).encode(), 'field-relations'
+            yield 'line', (m + ' ' + v + ' ' + v[:-1]).encode(), 'field-relations'
+    names = [('A', 'B'), ('Host', 'Value'), ('a', 'a'), ('X-A', 'X-A: X-A'), ('Content-Length', 'Content-Length'), ('n', 'N')]
+    for a, b in names:
+        m, v = pick_mv(rng)
+        yield 'rt', (m, '/', v, [(a, b), (b.replace(': ', ':'), a)], b''), False
+        yield 'rt', (m, '/', v, [(a, b), (a + b.replace(': ', ':'), ''), (a, b + a), (a[:-1], b), (a + '-', b)], (a + ': ' + b + '\r\n').encode()), False
+        yield 'rt', (m, '/' + a, v, [(a, '/' + a), ('/' + a, a)], a.encode()), False
+        yield 'rt', (m, '/', v, [(a, a + ': ' + b), (a + ':' + b.replace(': ', ':'), ''), (a, ': ' + b), (a, b + ': ')], b''), False
+    # a declared length against the other lengths of the message: number of headers, head, whole message, head + its own digits
+    for body in [b'', b'hello', fill_bytes(100, 1), fill_bytes(1000, 2)]:
+        for extra in [0, 1, 5, 30]:
+            m, v = pick_mv(rng)
+            hs0 = [('Host', 'h')] + [('X%d' % k, 'y') for k in range(extra)]
+            for name in ['Content-Length', 'content-length']:
+                for pos in (0, len(hs0)):
+                    cands = set()
+                    for guess in range(4):
+                        probe = hs0[:pos] + [(name, '0' * (guess + 1))] + hs0[pos:]
+                        head = len(serialise(m, '/cl', v, probe, b''))
+                        cands |= {head, head + len(body), head - 2, head - 4, len(probe), len(probe) + 1, len(body) + len(probe)}
+                    for c in sorted(cands):
+                        if quick and rng.chance(2, 3): continue
+                        yield 'rt', (m, '/cl', v, hs0[:pos] + [(name, str(c))] + hs0[pos:], body), False
+    # Host against an absolute-form target: equal, other case, without / with another port, another host, empty, missing, twice
+    for t, th in [('http://a.example:80/p?q', 'a.example:80'), ('https://A.Example/p', 'A.Example'), ('http://[::1]:8080/', '[::1]:8080'), ('http://user@h/', 'h'), ('h:443', 'h:443')]:
+        for hosts in [[th], [th.lower()], [th.upper()], [th.split(':')[0]], [th + ':81'], ['b.example'], [''], [], [th, th], [th, 'b.example'], ['b.example', th], [' ' + th], [th + ' '], [th + '.'], ['x' + th]]:
+            for m in (['GET', 'CONNECT', 'OPTIONS'] if not quick else [rng.choice(['GET', 'CONNECT', 'OPTIONS', 'POST'])]):
+                v = rng.choice(VERSIONS)
+                name = rng.choice(['Host', 'host', 'HOST'])
+                yield 'rt', (m, t, v, [('Accept', '*/*')] + [(name, h) for h in hosts], b''), False
+                yield 'parse', serialise(m, t, v, [(name, h) for h in hosts], b'', sp=''), 'field-relations'
+
+LEN_SPECIAL_QUICK = [998, 999, 1000, 1001, 2000, 2083, 2084, 4000, 5000, 7999, 8000, 8001, 8189, 8190, 12288, 20000]
+LEN_SPECIAL_MORE = [30000, 32000, 50000, 60000, 64000, 100000, 200000, 262144]
+CNT_SPECIAL_QUICK = [95, 96, 97, 149, 150, 151, 199, 201, 249, 250, 251, 299, 300, 301, 499, 500, 501, 749, 750, 751, 999, 1001, 1999, 2000, 2001]
+REP_COUNTS = [1, 2, 3, 4, 5, 7, 8, 9, 10, 11, 15, 16, 17, 31, 32, 33, 63, 64, 65, 100, 127, 128, 129, 255, 256, 257]
+
+def every_length(rng, quick):
+    """every length 0..300 of the target, a header name, a header value and the body; the lengths servers commonly limit (1000, 2083,
+    8000, 8190 ...); header counts at round numbers; how often a separator may occur in one field"""
+    top = 301 if quick else 1101
+    for L in range(0, top):
+        m, v = pick_mv(rng)
+        k = L % 4
+        yield 'rt', (m, fill(L, L), v, [('Host', 'h')] if k else [], b'b' if k == 1 else b''), False
+        yield 'rt', (m, '/', v, [(fill(L, L + 1), fill(L, L + 2)), ('After', 'x')], fill_bytes(L, L)), False
+        if k == 0 or not quick:
+            yield 'line', (m + ' ' + fill(L, L) + ' ' + v).encode(), 'every-length'
+            yield 'line', (m + ' ' + fill(L, L) + ' ' + v + 'x').encode(), 'every-length'
+            yield 'hdr', (fill(L, L), fill(300 - L if L <= 300 else L, L), rng.choice(['\r\n', '\n', '']))
+    for L in (LEN_SPECIAL_QUICK if quick else LEN_SPECIAL_QUICK + LEN_SPECIAL_MORE):
+        m, v = pick_mv(rng)
+        yield 'rt', (m, '/' + fill(L - 1, L), v, [('Host', 'h')], b''), False
+        yield 'rt', (m, '/', v, [('X-Long', fill(L, L + 1)), ('After', 'x')], b'b'), False
+        yield 'rt', (m, '/', v, [(fill(L, L + 2), 'v'), ('After', 'x')], b'b'), False
+        yield 'rt', (m, '/', v, [('N', fill(L - 5, L))], fill_bytes(L, L)), False
+        yield 'parse', (m + ' /' + fill(L, L) + ' HTTP/1.2\r\n\r\n').encode(), 'every-length'
+        # the whole request LINE (with its CRLF) of exactly L bytes
+        n = L - len((m + '  ' + v + ' \r\n').encode())
+        if n > 0: yield 'rt', (m, '/' + fill(n - 1, L), v, [], b''), False
+    for n in (CNT_SPECIAL_QUICK if quick else CNT_SPECIAL_QUICK + [2999, 3000, 3001, 7999, 8000, 8001, 19999, 20001]):
+        m, v = pick_mv(rng)
+        yield 'rt', (m, '/', v, [('K%d' % k, 'v%d' % (n - k)) for k in range(n)], b'body'), False
+    for n in REP_COUNTS:
+        m, v = pick_mv(rng)
+        yield 'rt', (m, '/', v, [('N', 'v: ' * n), ('M', ': ' * n + 'x'), ('a:' * n, ':' * n), ('After', 'a, ' * n)], b''), False
+        yield 'rt', (m, '/' + '?a=b' * n + '#' * n, v, [(':' * n, ' ' * n), ('After', '; ' * n), ('=' * n, '=' * n)], b'\r\n' * n), False
+        yield 'rt', (m, '/' + 'a/' * n + '%41' * n, v, [('\t' * n, '\t' * n), ('After', '"' * n)], b'\x00' * n), False
+        yield 'hdr', ('N', 'v: ' * n, '\r\n')
+        yield 'line', (m + ' ' * n + '/ ' + v).encode(), 'every-length'
+        yield 'line', (m + ' /' + ' ' * n + v).encode(), 'every-length'
+        yield 'line', (m + ' / ' + v + ' ' * n).encode(), 'every-length'
+        yield 'line', (' ' * n + m + ' / ' + v).encode(), 'every-length'
+        yield 'line', (m + ' / ' + v + ' x' * n).encode(), 'every-length'
+
+def all_cases2(rng, quick):
+    for f in (aligned_multibyte, absolute_alignment, escapes_comments, histories, unicode_names, normalised_tokens, field_relations, every_length):
+        r = rng.fork('gen_c14/2:' + f.__name__)
+        for case in f(r, quick):
+            yield (f.__name__,) + tuple(case)
